@@ -131,3 +131,62 @@ def returned_segments(p, N, body):
         if s2 is not None:
             segs = s2
     return flow.merge_const_segments(segs), view
+
+
+def _int_byte(v):
+    """a single byte that is byte k of an integer: -> (integer term, ("elem", order, k)) for `x.to_be_bytes()[k]`, or
+    (integer term, ("shift", s)) for `(x >> s) as u8`; None otherwise"""
+    x = v
+    while isinstance(x, tuple) and x and x[0] == "cast" and len(x) == 3 and x[1] == "u8":
+        x = x[2]
+    if x is not v or True:
+        y = x
+        if isinstance(y, tuple) and len(y) == 3 and y[0] == "elem_at" and isinstance(y[1], tuple) and len(y[1]) == 4 and y[1][0] == "call" and bytesview._const(y[2]) is not None:
+            for order in ("be", "le", "ne"):
+                if y[1][1].endswith("::to_%s_bytes" % order) and len(y[1][2]) == 1:
+                    return (y[1][2][0], ("elem", order, bytesview._const(y[2]), y[1][1]))
+        if v is not x:
+            if isinstance(y, tuple) and len(y) == 4 and y[0] == "binop" and y[1] in ("Shr", "ShrUnchecked") and bytesview._const(y[3]) is not None:
+                return (y[2], ("shift", bytesview._const(y[3])))
+            return (y, ("shift", 0))
+    return None
+
+
+def grouped_writes(writes, root):
+    """[(lo, hi, source term)] of the positional writes into `root`, in position order, with runs of single-byte stores
+    that spell an integer byte by byte (`buf[5] = (n >> 8) as u8; buf[6] = n as u8`, `let [a, b, c, d] = x.to_ne_bytes();
+    buf[0] = a; ...`) merged into the one slice write they amount to (`x.to_be_bytes()` …)"""
+    ws = sorted([w for w in writes if w[0] == root and w[1] is not None], key=lambda w: w[1])
+    out = []
+    i = 0
+    while i < len(ws):
+        r, lo, hi, src, bb = ws[i]
+        if src[0] == "byte" and hi == lo + 1:
+            ib = _int_byte(src[1])
+            if ib is not None:
+                run = [(lo, ib)]
+                j = i + 1
+                while j < len(ws) and ws[j][3][0] == "byte" and ws[j][1] == run[-1][0] + 1:
+                    nb = _int_byte(ws[j][3][1])
+                    if nb is None or nb[0] != ib[0]:
+                        break
+                    run.append((ws[j][1], nb))
+                    j += 1
+                n = len(run)
+                kinds = [k[1] for p_, k in run]
+                merged = None
+                if n in (2, 4, 8):
+                    ty = {2: "u16", 4: "u32", 8: "u64"}[n]
+                    if all(k[0] == "elem" for k in kinds) and len({k[1] for k in kinds}) == 1 and [k[2] for k in kinds] == list(range(n)):
+                        merged = ("call", kinds[0][3], (ib[0],), 0)
+                    elif all(k[0] == "shift" for k in kinds) and [k[1] for k in kinds] == [8 * (n - 1 - q) for q in range(n)]:
+                        merged = ("call", "core::num::<impl %s>::to_be_bytes" % ty, (ib[0],), 0)
+                    elif all(k[0] == "shift" for k in kinds) and [k[1] for k in kinds] == [8 * q for q in range(n)]:
+                        merged = ("call", "core::num::<impl %s>::to_le_bytes" % ty, (ib[0],), 0)
+                if merged is not None:
+                    out.append((lo, lo + n, merged))
+                    i = j
+                    continue
+        out.append((lo, hi, src[1]))
+        i += 1
+    return out
